@@ -57,7 +57,17 @@ def run(ctx, prop):
             with open(mf) as fh:
                 if json.load(fh).get("property") == prop:
                     seeds.append(d)
-    if not muts and not ben and not seeds:
+    # behaviour-preserving refactorings kept under benign/<id>/: the property's own check must stay silent on each
+    twins = []
+    bd = os.path.join(VERIF, "benign")
+    for d in sorted(os.listdir(bd)) if os.path.isdir(bd) else []:
+        mf = os.path.join(bd, d, "meta.json")
+        if os.path.exists(mf):
+            with open(mf) as fh:
+                mj = json.load(fh)
+            if mj.get("property") == prop:
+                twins.append((d, mj))
+    if not muts and not ben and not seeds and not twins:
         ctx.ok("SELFTEST", "no catalogued mutants for " + prop, "")
         return
     base = tempfile.mkdtemp(prefix="h3-selftest-", dir="/var/tmp")
@@ -103,5 +113,22 @@ def run(ctx, prop):
                 continue
             ctx.check(rc == 1 and bool(keys), "SELFTEST", "seeded change " + d, "reported",
                       "the rules do not report the independently seeded change seeded/%s (see its notes.md)" % d, (keys[0] if keys else "")[:160])
+        for d, mj in twins:
+            if mj.get("limitation"):
+                ctx.ok("SELFTEST", "refactoring %s: documented limitation, not run (%s)" % (d, mj["limitation"][:120]), "")
+                continue
+            dst = os.path.join(base, "tree")
+            _copy_tree(dst)
+            with open(os.path.join(bd, d, "patch.diff"), "rb") as fh:
+                q = subprocess.run(["patch", "-p1", "-s", "-f", "-d", dst], stdin=fh, stdout=subprocess.PIPE, stderr=subprocess.STDOUT)
+            if q.returncode != 0:
+                ctx.ok("SELFTEST", "refactoring %s: not applicable to this tree (patch did not apply)" % d, "")
+                continue
+            rc, keys, broken, tail = _run_check(prop, dst)
+            if broken:
+                ctx.ok("SELFTEST", "refactoring %s: does not compile on this tree (skipped)" % d, "")
+                continue
+            ctx.check(rc == 0, "SELFTEST", "refactoring " + d, "stays silent",
+                      "the check raises an alarm on the behaviour-preserving refactoring benign/%s: %s" % (d, keys[:3]), "silent")
     finally:
         shutil.rmtree(base, ignore_errors=True)
